@@ -68,7 +68,8 @@ def apply(stmts, st, unit_starts=()):
         k = op["k"]
         if k in ("blank", "comment"):
             i = op["at"] - 1
-            before[i].append("" if k == "blank" else "! layout comment")
+            # ordinary comments may contain anything: an unbalanced apostrophe, an ampersand, a semicolon
+            before[i].append("" if k == "blank" else ("! layout comment" if i % 2 else "! don't change nx & ny; plain comment"))
         elif k == "split":
             i = op["at"] - 1
             last = groups[i][-1]
@@ -88,7 +89,7 @@ def apply(stmts, st, unit_starts=()):
             i = op["at"] - 1
             if "!" in groups[i][-1] or "'" in groups[i][-1]:
                 raise NotApplicable("statement already carries a comment or a string")
-            groups[i][-1] = groups[i][-1] + "  ! note; end of this part"
+            groups[i][-1] = groups[i][-1] + ("  ! note; end of this part" if i % 2 else "  ! note; don't merge & keep")
         elif k == "flush":
             flush = True
         elif k == "join":
